@@ -186,6 +186,9 @@ def corruptions(tr, rng):
             t["preds"][pi]["ids"] = t["preds"][pi]["ids"][1:]
             t["preds"][pi]["raw"] = t["preds"][pi]["raw"][1:]
         out.append(("row_never_scored", mod(drop)))
+        out.append(("estimator_saw_the_rows_it_scores", mod(lambda t: t["preds"][pi].update(est_train=list(t["preds"][pi]["ids"])))))
+        if others:
+            out.append(("fold_models_share_one_estimator", mod(lambda t: t["preds"][others[0]].update(est=t["preds"][pi]["est"]))))
     if not tr["capped"]:
         f0 = next((i for i, f in enumerate(tr["fits"]) if len(f["train"]) > 1), None)
         if f0 is not None:
